@@ -596,6 +596,32 @@ func runClient(c *Ctx, hostile bool) {
 	if progOrder != "" && !hostile {
 		c.Violf("progressive results delivered out of order: %s", progOrder)
 	}
+	// a Call that sent CANCEL (its context ended) returns an error - the context's, or the reply
+	// time-out when the CANCEL is never answered - never a result that turned up afterwards
+	{
+		reqOf := map[string]wamp.ID{}
+		cancelled := map[wamp.ID]bool{}
+		for _, s := range f.seen {
+			switch x := s.Msg.(type) {
+			case *wamp.Call:
+				if len(x.Arguments) > 0 {
+					if tag, ok := wamp.AsString(x.Arguments[0]); ok {
+						reqOf[tag] = x.Request
+					}
+				}
+			case *wamp.Cancel:
+				cancelled[x.Request] = true
+			}
+		}
+		for _, r := range results {
+			if id, ok := reqOf[r.req]; ok && cancelled[id] && r.err == nil && (r.op == "callctx" || r.op == "call" || r.op == "callprog") {
+				c.Violf("Call %s sent CANCEL (its context had ended) and then returned a result with a nil error", r.req)
+			}
+			if id, ok := reqOf[r.req]; ok && cancelled[id] {
+				c.Probe("call_that_sent_cancel_checked")
+			}
+		}
+	}
 	if !hostile {
 		// a Call whose context ended must have produced a CANCEL with the configured mode
 		for _, r := range results {
